@@ -157,6 +157,7 @@ def run_case(case, observe=None):
                         except ConnectionRefusedError:
                             return fail("connect-refused", i, f"{sim.blocked_report()} {sim.thread_errors[-1:]}", "passive endpoint listens")
                     rig.rxbuf = b""
+                    rig._rx_total = 0
                     if inflight:
                         s = nxt()
                         rig.peer.send(e37.control_frame(e37.SELECT_REQ, s))
